@@ -34,6 +34,9 @@ def loop():
     global _loop
     if _loop is None or _loop.is_closed():
         _loop = asyncio.new_event_loop()
+        import atexit
+
+        atexit.register(_loop.close)
     return _loop
 
 
